@@ -9,6 +9,7 @@ import (
 	"math/rand/v2"
 	"slices"
 	"sync"
+	"sync/atomic"
 	"testing"
 	"testing/synctest"
 	"time"
@@ -155,9 +156,10 @@ func scenario(c *vk.C, rng *rand.Rand, k int) {
 
 	// the plain Controller flavour re-declares its inputs half-way through (same keys with other kinds, or a changed key set)
 	var (
-		inputs2   []controller.Input
-		recs2     []opRec
-		updateErr error
+		inputs2           []controller.Input
+		readsDuringUpdate atomic.Int64
+		recs2             []opRec
+		updateErr         error
 	)
 
 	script := func(ctx context.Context, r controller.QRuntime) {
@@ -184,7 +186,40 @@ func scenario(c *vk.C, rng *rand.Rand, k int) {
 				inputs2 = inputs2[:len(inputs2)-1] // also drop one
 			}
 
-			if updateErr = full.UpdateInputs(slices.Clone(inputs2)); updateErr != nil {
+			// ... and every other time an input on a kind nobody watches yet comes in, so that the runtime has to establish a watch in the
+			// middle of the update: at that moment (inside the state's watch call, same goroutine) the controller reads one of its old
+			// inputs. Whatever that read answers, the declaration in force once UpdateInputs has returned is the new one.
+			if orng.IntN(2) == 0 {
+				for _, ns := range nss {
+					for _, t := range types {
+						if !usedKey[ns+t] && !slices.ContainsFunc(inputs, func(in controller.Input) bool { return in.Namespace == ns && in.Type == t }) {
+							inputs2 = append(inputs2, controller.Input{Namespace: ns, Type: t, Kind: kinds[orng.IntN(3)]})
+							usedKey[ns+t] = true
+
+							break
+						}
+					}
+
+					if len(inputs2) > len(inputs) {
+						break
+					}
+				}
+			}
+
+			old := inputs[orng.IntN(len(inputs))]
+			oldKey := gp.Key{NS: old.Namespace, Type: old.Type, ID: old.ID.ValueOr(ids[orng.IntN(2)])}
+
+			w.Px.HoldWatch = func(string, gp.Key) {
+				_, _ = full.GetUncached(ctx, rtp.Ptr(oldKey))
+				_ = full.AddFinalizer(ctx, rtp.Ptr(gp.Key{NS: oldKey.NS, Type: oldKey.Type, ID: "no-such-id"}), "pfin")
+
+				readsDuringUpdate.Add(1)
+			}
+
+			updateErr = full.UpdateInputs(slices.Clone(inputs2))
+			w.Px.HoldWatch = nil
+
+			if updateErr != nil {
 				return
 			}
 
@@ -314,6 +349,8 @@ func scenario(c *vk.C, rng *rand.Rand, k int) {
 			c.Violation(verdict, map[string]any{"scenario": k, "q_flavour": q, "op_index": i, "op": rec, "why": detail, "inputs": declString(inputs, nil), "outputs": declString(nil, outputs)})
 		}
 	}
+
+	c.Count("reads_in_the_middle_of_an_input_update", int(readsDuringUpdate.Load()))
 
 	if updateErr != nil {
 		c.Violation("valid-input-update-rejected", map[string]any{"err": updateErr.Error(), "from": declString(inputs, nil), "to": declString(inputs2, nil)})
